@@ -41,3 +41,421 @@ pub fn n_c14_element_order() {
         vk_check!((xy == Equal) == (names[x] == names[y]), "cmp == Equal is not the same as equal item names");
     }
 }
+
+// ---------------------------------------------------------------------------------------------------------
+// native replay body for the editing kernel decided by engine E2 (C07 insertion range / C12 no panic):
+// the abstract situation (k existing sub-elements drawn from A..D of the content model  top[A, nested[B, C], D], group modes,
+// multiplicities, availability in the version) is looked up in the REAL specification: the first (element type, version,
+// assignment of A..D to sub-elements of that type) with the same pairwise order, group modes, multiplicities and availability
+// is built as an ElementRaw and the real functions are called on it.
+// ---------------------------------------------------------------------------------------------------------
+#[cfg(not(kani))]
+pub fn n_edit_insert() {
+    use autosar_data_specification::{ContentMode, ElementMultiplicity, ElementType};
+    const NN: usize = 5; // abstract names A B C E D
+    let total = vk::any_u8() == 1;
+    let k = vk::any_u8() as usize;
+    assert!(k <= 6, "VK_REPLAY_SHAPE");
+    let mut seq = std::vec::Vec::new();
+    for _ in 0..k { let n = vk::any_u8() as usize; assert!(n < NN, "VK_REPLAY_SHAPE"); seq.push(n); }
+    let new = vk::any_u8() as usize;
+    assert!(new < NN, "VK_REPLAY_SHAPE");
+    let position = vk::any_u64() as usize;
+    let cm = |i: u8| match i { 0 => ContentMode::Sequence, 1 => ContentMode::Choice, _ => ContentMode::Bag };
+    let modes = [cm(vk::any_u8()), cm(vk::any_u8()), cm(vk::any_u8())];
+    let mut mult = std::vec::Vec::new();
+    for _ in 0..NN { mult.push(match vk::any_u8() { 0 => ElementMultiplicity::ZeroOrOne, 1 => ElementMultiplicity::One, _ => ElementMultiplicity::Any }); }
+    let mut avail = std::vec::Vec::new();
+    for _ in 0..NN { avail.push(vk::any_u8() == 1); }
+    let a_late = vk::any_u8() == 1;
+    let abs_idx: [std::vec::Vec<usize>; NN] = [if a_late { std::vec![3] } else { std::vec![0] }, std::vec![1, 0], std::vec![1, 1, 0], std::vec![1, 1, 1], std::vec![2]];
+    fn level(a: &[usize], b: &[usize]) -> usize {
+        let mut l = 0;
+        while l + 1 < a.len() && l + 1 < b.len() && a[l] == b[l] { l += 1; }
+        l
+    }
+    let mut used: std::vec::Vec<usize> = seq.clone();
+    used.push(new);
+    used.sort();
+    used.dedup();
+
+    // reference reading of "conforms to the content model" on the real specification answers
+    fn valid(t: ElementType, items: &[(crate::ElementName, std::vec::Vec<usize>)], version: u32) -> bool {
+        if t.content_mode() == ContentMode::Bag || t.content_mode() == ContentMode::Mixed {
+            return items.iter().all(|(n, _)| t.find_sub_element(*n, version).is_some());
+        }
+        for i in 0..items.len() {
+            if t.find_sub_element(items[i].0, version).is_none() { return false; }
+            for j in i + 1..items.len() {
+                let (a, b) = (&items[i].1, &items[j].1);
+                let m = t.find_common_group(a, b).content_mode();
+                if m == ContentMode::Sequence && a > b { return false; }
+                if a != b { if m == ContentMode::Choice { return false; } }
+                else if m != ContentMode::Bag && m != ContentMode::Mixed && t.get_sub_element_multiplicity(a) != Some(ElementMultiplicity::Any) { return false; }
+            }
+        }
+        true
+    }
+    // (name, type, index vector in the version (all-version lookup when the name is not available), available, differs from the all-version lookup)
+    type Sub = (crate::ElementName, ElementType, std::vec::Vec<usize>, bool, bool);
+    // stage 0: the abstract situation exactly; stage 1: multiplicities free; stage 2: multiplicities and group modes free
+    // (order relations, nesting levels, availability and the moved-between-versions flag are always matched)
+    struct Abs<'a> { used: &'a [usize], abs_idx: &'a [std::vec::Vec<usize>; NN], modes: [ContentMode; 3], mult: &'a [ElementMultiplicity], avail: &'a [bool], a_late: bool, stage: usize }
+    fn fits(t: ElementType, subs: &[Sub], ab: &Abs, assign: &[usize], cand: usize) -> bool {
+        let me = ab.used[assign.len()];
+        let (_name, _st, idx, available, moved) = &subs[cand];
+        if *available != ab.avail[me] { return false; }
+        if *moved != (me == 0 && ab.a_late && ab.avail[0]) { return false; }
+        if ab.stage < 1 && t.get_sub_element_multiplicity(idx) != Some(ab.mult[me]) { return false; }
+        if ab.stage < 2 && t.find_common_group(idx, idx).content_mode() != ab.modes[ab.abs_idx[me].len() - 1] { return false; }
+        if ab.stage >= 2 && (idx.len() > 1) != (ab.abs_idx[me].len() > 1) { return false; }
+        for (pos, other) in assign.iter().enumerate() {
+            let o = ab.used[pos];
+            let oidx = &subs[*other].2;
+            if *other == cand { return false; }
+            // the order of two entries only matters inside a sequence group (and equal entries must stay equal)
+            let abs_mode = ab.modes[level(&ab.abs_idx[o], &ab.abs_idx[me])];
+            if abs_mode == ContentMode::Sequence || ab.stage >= 2 {
+                if ab.abs_idx[o].cmp(&ab.abs_idx[me]) != oidx.cmp(idx) { return false; }
+            } else if (ab.abs_idx[o] == ab.abs_idx[me]) != (oidx == idx) { return false; }
+            if ab.stage < 2 && t.find_common_group(oidx, idx).content_mode() != ab.modes[level(&ab.abs_idx[o], &ab.abs_idx[me])] { return false; }
+            if ab.stage >= 2 && (level(oidx, idx) > 0) != (level(&ab.abs_idx[o], &ab.abs_idx[me]) > 0) { return false; }
+        }
+        true
+    }
+    fn search(t: ElementType, subs: &[Sub], ab: &Abs, assign: &mut std::vec::Vec<usize>) -> bool {
+        if assign.len() == ab.used.len() { return true; }
+        for cand in 0..subs.len() {
+            if fits(t, subs, ab, assign, cand) {
+                assign.push(cand);
+                if search(t, subs, ab, assign) { return true; }
+                assign.pop();
+            }
+        }
+        false
+    }
+
+    let all_types = crate::parser::verif_harness::n_all_types_pub();
+    let mut instances = 0usize;
+    for stage in 0..3usize {
+    let mut tried = 0usize;
+    for t in all_types.iter().copied() {
+        if tried >= 40 { break; }
+        if stage < 2 && t.content_mode() != modes[0] { continue; }
+        if stage >= 2 && (t.content_mode() == ContentMode::Bag || t.content_mode() == ContentMode::Mixed) != (modes[0] == ContentMode::Bag) { continue; }
+        let mut names: std::vec::Vec<(crate::ElementName, ElementType, std::vec::Vec<usize>)> = std::vec::Vec::new();
+        for (name, _st, _, _) in t.sub_element_spec_iter() {
+            if let Some((st, idx)) = t.find_sub_element(name, u32::MAX) {
+                if !names.iter().any(|(n, _, _)| *n == name) { names.push((name, st, idx)); }
+            }
+        }
+        if names.len() < used.len() || names.len() > 60 { continue; }
+        for vbit in 0..21u32 {
+            let Some(version) = crate::AutosarVersion::from_val(1 << vbit) else { continue; };
+            let ver = version as u32;
+            let subs: std::vec::Vec<Sub> = names.iter().filter(|(_, st, _)| !st.is_named_in_version(version)).map(|(name, st, idx_max)| {
+                match t.find_sub_element(*name, ver) {
+                    Some((st_v, idx_v)) => { let moved = idx_v != *idx_max; (*name, st_v, idx_v, true, moved) }
+                    None => (*name, *st, idx_max.clone(), false, false),
+                }
+            }).collect();
+            let ab = Abs { used: &used, abs_idx: &abs_idx, modes, mult: &mult, avail: &avail, a_late, stage };
+            let mut assign: std::vec::Vec<usize> = std::vec::Vec::new();
+            if !search(t, &subs, &ab, &mut assign) { continue; }
+            let real = |abs: usize| &subs[assign[used.iter().position(|u| *u == abs).unwrap()]];
+            // build the parent with its existing sub-elements
+            let mut content = SmallVec::new();
+            let mut items = std::vec::Vec::new();
+            for n in &seq {
+                let (name, st, idx, _, _) = real(*n);
+                let child = ElementRaw { parent: ElementOrModel::None, elemname: *name, elemtype: *st, content: SmallVec::new(), attributes: SmallVec::new(), file_membership: HashSet::with_capacity(0), comment: None }.wrap();
+                content.push(ElementContent::Element(child));
+                items.push((*name, idx.clone()));
+            }
+            let parent = ElementRaw { parent: ElementOrModel::None, elemname: crate::ElementName::Autosar, elemtype: t, content, attributes: SmallVec::new(), file_membership: HashSet::with_capacity(0), comment: None }.wrap();
+            let (new_name, _, new_idx, _, _) = real(new);
+            let before: std::vec::Vec<Element> = parent.0.read().content.iter().filter_map(|c| if let ElementContent::Element(e) = c { Some(e.clone()) } else { None }).collect();
+            if !total && !valid(t, &items, ver) { continue; }
+            let range = parent.0.read().calc_element_insert_range(*new_name, version);
+            let weak = parent.downgrade();
+            let created = parent.0.write().create_sub_element_at(weak, *new_name, position, version);
+            let after: std::vec::Vec<Element> = parent.0.read().content.iter().filter_map(|c| if let ElementContent::Element(e) = c { Some(e.clone()) } else { None }).collect();
+            if created.is_err() {
+                vk_check!(after == before, "a failed create_sub_element_at changed the content");
+            }
+            tried += 1;
+            instances += 1;
+            if total { break; }
+            let okv: std::vec::Vec<bool> = (0..=k).map(|p| { let mut it = items.clone(); it.insert(p, (*new_name, new_idx.clone())); valid(t, &it, ver) }).collect();
+            match &range {
+                Ok((s, e)) => {
+                    for p in 0..=k {
+                        vk_check!((*s <= p && p <= *e) == okv[p], "a position is inside the reported insertion range but breaks the content model, or is outside and keeps it");
+                    }
+                    vk_check!(*e <= k, "the reported range ends beyond the content");
+                    vk_check!((*s <= position && position <= *e) == created.is_ok(), "create_sub_element_at succeeds outside the reported range or fails inside it");
+                }
+                Err(_) => {
+                    vk_check!(okv.iter().all(|v| !*v), "no insertion range is reported although a position keeps the content model");
+                    vk_check!(created.is_err(), "create_sub_element_at succeeds although no insertion range is reported");
+                }
+            }
+            if let Ok(el) = &created {
+                let mut want = before.clone();
+                if position <= want.len() { want.insert(position, el.clone()); }
+                vk_check!(after == want && el.element_name() == *new_name, "create_sub_element_at did not insert exactly one new element of the requested name at the requested position");
+            }
+            // this instance holds: go on with an instance in the next element type
+            break;
+        }
+    }
+    }
+    if instances == 0 {
+        panic!("VK_REPLAY_SHAPE: the real specification has no element type with this content model situation");
+    }
+}
+
+// ---------------------------------------------------------------------------------------------------------
+// native replay body for the document-level C17 harness of engine E2: the abstract situation (an optional enum-typed element;
+// is the element / is its value available in the target version; upgrade or downgrade) is looked up in the REAL specification,
+// the model is built through the public API in the source version and the public functions are compared with a strict load of
+// the serialized text relabelled with the target version.
+// ---------------------------------------------------------------------------------------------------------
+#[cfg(not(kani))]
+pub fn n_c17_doc() {
+    use autosar_data_specification::{CharacterDataSpec, ElementType};
+    let _doc = vk::any_u8();
+    let has_cat = vk::any_u8() == 1;
+    let elem_in_target = vk::any_u8() == 1;
+    let val_in_target = vk::any_u8() == 1;
+    let upgrade = vk::any_u8() == 1;
+    let versions: std::vec::Vec<crate::AutosarVersion> = (0..21u32).filter_map(|b| crate::AutosarVersion::from_val(1 << b)).collect();
+
+    // the property on one built model
+    let check = |model: &crate::AutosarModel, file: &crate::ArxmlFile, fv: crate::AutosarVersion, tv: crate::AutosarVersion| {
+        let text = file.serialize().expect("VK_REPLAY_SHAPE");
+        let relabelled = text.replacen(fv.filename(), tv.filename(), 1);
+        let reload_ok = crate::AutosarModel::new().load_buffer(relabelled.as_bytes(), "t.arxml", true).is_ok();
+        let (errs, mask) = file.check_version_compatibility(tv);
+        vk_check!(errs.is_empty() == reload_ok, "the compatibility check lists no incompatibility although the content relabelled with the target version fails strict validation (or the other way round)");
+        vk_check!(errs.is_empty() == (mask & (tv as u32) != 0), "the returned version mask contains the target version although incompatibilities are listed (or the other way round)");
+        let r = file.set_version(tv);
+        vk_check!(r.is_ok() == errs.is_empty(), "set_version succeeds although the compatibility check lists incompatibilities (or fails although it lists none)");
+        if r.is_ok() {
+            vk_check!(file.version() == tv, "set_version succeeded but the file does not carry the new version");
+            let text2 = file.serialize().expect("VK_REPLAY_SHAPE");
+            vk_check!(crate::AutosarModel::new().load_buffer(text2.as_bytes(), "u.arxml", true).is_ok(), "set_version succeeded but the content does not load strictly as the new version");
+        } else {
+            vk_check!(file.version() == fv, "a failed set_version changed the version of the file");
+        }
+        let _ = model;
+    };
+
+    if !has_cat {
+        let (fv, tv) = if upgrade { (versions[0], versions[20]) } else { (versions[20], versions[0]) };
+        let model = crate::AutosarModel::new();
+        let file = model.create_file("f.arxml", fv).expect("VK_REPLAY_SHAPE");
+        let pkgs = model.root_element().create_sub_element(crate::ElementName::ArPackages).expect("VK_REPLAY_SHAPE");
+        pkgs.create_named_sub_element(crate::ElementName::ArPackage, "p").expect("VK_REPLAY_SHAPE");
+        check(&model, &file, fv, tv);
+        return;
+    }
+    // search: an ARElement kind K under AR-PACKAGE/ELEMENTS with an enum-typed direct sub-element E
+    let all = 0x1f_ffffu32;
+    let (pkgs_t, _) = ElementType::ROOT.find_sub_element(crate::ElementName::ArPackages, u32::MAX).expect("VK_REPLAY_SHAPE");
+    let (pkg_t, _) = pkgs_t.find_sub_element(crate::ElementName::ArPackage, u32::MAX).expect("VK_REPLAY_SHAPE");
+    let (elements_t, _) = pkg_t.find_sub_element(crate::ElementName::Elements, u32::MAX).expect("VK_REPLAY_SHAPE");
+    // the requested direction first; the property does not depend on it, so the other direction serves when the real specification has no such instance
+    for upgrade in [upgrade, !upgrade] {
+    for (kname, kt, kmask, _) in elements_t.sub_element_spec_iter() {
+        for (ename, et, emask, _) in kt.sub_element_spec_iter() {
+            let Some(CharacterDataSpec::Enum { items }) = et.chardata_spec() else { continue; };
+            for (item, imask) in items.iter() {
+                for fv in &versions {
+                    for tv in &versions {
+                        let (fb, tb) = (*fv as u32, *tv as u32);
+                        if fb == tb || (tb > fb) != upgrade { continue; }
+                        // everything exists in the source version, the container kind also in the target version
+                        if kmask & fb == 0 || emask & fb == 0 || imask & fb == 0 || kmask & tb == 0 { continue; }
+                        if (emask & tb != 0) != elem_in_target { continue; }
+                        if elem_in_target && (imask & tb != 0) != val_in_target { continue; }
+                        let model = crate::AutosarModel::new();
+                        let Ok(file) = model.create_file("f.arxml", *fv) else { continue; };
+                        let Ok(pkgs) = model.root_element().create_sub_element(crate::ElementName::ArPackages) else { continue; };
+                        let Ok(pkg) = pkgs.create_named_sub_element(crate::ElementName::ArPackage, "p") else { continue; };
+                        let Ok(elements) = pkg.create_sub_element(crate::ElementName::Elements) else { continue; };
+                        let Ok(k) = elements.create_named_sub_element(kname, "k") else { continue; };
+                        let Ok(e) = k.create_sub_element(ename) else { continue; };
+                        if e.set_character_data(*item).is_err() { continue; }
+                        // the built file must be valid in its own version, otherwise it is not an instance
+                        let text = file.serialize().expect("VK_REPLAY_SHAPE");
+                        if crate::AutosarModel::new().load_buffer(text.as_bytes(), "s.arxml", true).is_err() { continue; }
+                        let _ = all;
+                        check(&model, &file, *fv, *tv);
+                        return;
+                    }
+                }
+            }
+        }
+    }
+    }
+    panic!("VK_REPLAY_SHAPE: the real specification has no instance of this situation");
+}
+
+// ---------------------------------------------------------------------------------------------------------
+// native replay body for the sort harness of engine E2 (C14): SDGS > SDG* > SD* with one-letter values, built through the
+// public API in the given order and in the reversed order
+// ---------------------------------------------------------------------------------------------------------
+#[cfg(not(kani))]
+pub fn n_c14_sort() {
+    use std::cmp::Ordering::*;
+    let nx = vk::any_u8() as usize;
+    assert!(nx <= 4, "VK_REPLAY_SHAPE");
+    let mut rows: std::vec::Vec<std::vec::Vec<u8>> = std::vec::Vec::new();
+    for _ in 0..nx {
+        let ny = vk::any_u8() as usize;
+        assert!(ny <= 4, "VK_REPLAY_SHAPE");
+        rows.push((0..ny).map(|_| vk::any_u8()).collect());
+    }
+    let build = |rev: bool| {
+        let model = crate::AutosarModel::new();
+        model.create_file("f", crate::AutosarVersion::LATEST).expect("VK_REPLAY_SHAPE");
+        let pkgs = model.root_element().create_sub_element(crate::ElementName::ArPackages).expect("VK_REPLAY_SHAPE");
+        let pkg = pkgs.create_named_sub_element(crate::ElementName::ArPackage, "p").expect("VK_REPLAY_SHAPE");
+        let sdgs = pkg.create_sub_element(crate::ElementName::AdminData).and_then(|a| a.create_sub_element(crate::ElementName::Sdgs)).expect("VK_REPLAY_SHAPE");
+        let xs: std::vec::Vec<&std::vec::Vec<u8>> = if rev { rows.iter().rev().collect() } else { rows.iter().collect() };
+        for row in xs {
+            let sdg = sdgs.create_sub_element(crate::ElementName::Sdg).expect("VK_REPLAY_SHAPE");
+            let ys: std::vec::Vec<u8> = if rev { row.iter().rev().copied().collect() } else { row.clone() };
+            for y in ys {
+                let sd = sdg.create_sub_element(crate::ElementName::Sd).expect("VK_REPLAY_SHAPE");
+                sd.set_character_data(String::from_utf8(std::vec![y]).expect("VK_REPLAY_SHAPE")).expect("VK_REPLAY_SHAPE");
+            }
+        }
+        (model, sdgs)
+    };
+    let shape = |sdgs: &Element| -> std::vec::Vec<std::vec::Vec<String>> {
+        sdgs.sub_elements().map(|sdg| sdg.sub_elements().map(|sd| sd.character_data().map(|c| c.to_string()).unwrap_or_default()).collect()).collect()
+    };
+    let (_m1, p1) = build(false);
+    p1.sort();
+    let (_m2, p2) = build(true);
+    p2.sort();
+    let xs: std::vec::Vec<Element> = p1.sub_elements().collect();
+    for w in xs.windows(2) {
+        vk_check!(w[0].cmp(&w[1]) != Greater, "after sort() a sibling compares Greater than its successor (real Element::cmp on the final state)");
+    }
+    let before = shape(&p1);
+    p1.sort();
+    vk_check!(shape(&p1) == before, "sorting a sorted element again changes it (sort is not idempotent)");
+    vk_check!(shape(&p2) == before, "the sorted result depends on the order the siblings had before");
+    for ys in &before {
+        vk_check!(ys.windows(2).all(|w| w[0] <= w[1]), "the values inside a sorted child are not in order");
+    }
+    let mut lens: std::vec::Vec<usize> = before.iter().map(|y| y.len()).collect();
+    let mut want: std::vec::Vec<usize> = rows.iter().map(|y| y.len()).collect();
+    lens.sort();
+    want.sort();
+    vk_check!(lens == want, "sort() lost or duplicated content");
+}
+
+// ---------------------------------------------------------------------------------------------------------
+// native replay bodies for the index harnesses of engine E2 (C04 / C05 / C06): the same small model through the public API:
+// AR-PACKAGES > [P1 (n1) > AR-PACKAGES > Q (q), P2 (n2) > ELEMENTS > SYSTEM s > FIBEX-ELEMENTS > two references]
+// ---------------------------------------------------------------------------------------------------------
+#[cfg(not(kani))]
+fn n_index_model() -> (crate::AutosarModel, std::vec::Vec<String>, Element, Element, Element, Element, std::vec::Vec<Element>, u8, u8) {
+    let mut strs: std::vec::Vec<String> = std::vec::Vec::new();
+    for _ in 0..7 {
+        let n = vk::any_u8() as usize;
+        assert!(n <= 8, "VK_REPLAY_SHAPE");
+        let b: std::vec::Vec<u8> = (0..n).map(|_| vk::any_u8()).collect();
+        strs.push(String::from_utf8(b).expect("VK_REPLAY_SHAPE"));
+    }
+    let aspect = vk::any_u8();
+    let which = vk::any_u8();
+    let model = crate::AutosarModel::new();
+    model.create_file("f", crate::AutosarVersion::LATEST).expect("VK_REPLAY_SHAPE");
+    let pkgs = model.root_element().create_sub_element(crate::ElementName::ArPackages).expect("VK_REPLAY_SHAPE");
+    let p1 = pkgs.create_named_sub_element(crate::ElementName::ArPackage, &strs[0]).expect("VK_REPLAY_SHAPE");
+    let qe = p1.create_sub_element(crate::ElementName::ArPackages).and_then(|x| x.create_named_sub_element(crate::ElementName::ArPackage, &strs[2])).expect("VK_REPLAY_SHAPE");
+    let p2 = pkgs.create_named_sub_element(crate::ElementName::ArPackage, &strs[1]).expect("VK_REPLAY_SHAPE");
+    let fibex = p2.create_sub_element(crate::ElementName::Elements)
+        .and_then(|e| e.create_named_sub_element(crate::ElementName::System, "s"))
+        .and_then(|s| s.create_sub_element(crate::ElementName::FibexElements)).expect("VK_REPLAY_SHAPE");
+    let mut refs = std::vec::Vec::new();
+    for text in [&strs[4], &strs[5], &strs[6]] {
+        let r = fibex.create_sub_element(crate::ElementName::FibexElementRefConditional)
+            .and_then(|c| c.create_sub_element(crate::ElementName::FibexElementRef)).expect("VK_REPLAY_SHAPE");
+        r.set_character_data(text.clone()).expect("VK_REPLAY_SHAPE");
+        refs.push(r);
+    }
+    (model, strs, pkgs, p1, qe, p2, refs, aspect, which)
+}
+
+#[cfg(not(kani))]
+pub fn n_rename_step() {
+    let (model, strs, _pkgs, p1, qe, p2, refs, aspect, _which) = n_index_model();
+    let (n1, n2, q, m, ra, rb, rc) = (&strs[0], &strs[1], &strs[2], &strs[3], &strs[4], &strs[5], &strs[6]);
+    let old1 = format!("/{n1}");
+    let dup = m == n2;
+    let res = p1.set_item_name(m);
+    let text_of = |e: &Element| e.character_data().and_then(|c| c.string_value()).unwrap_or_default();
+    let listed_once = |r: &Element| model.get_references_to(&text_of(r)).iter().filter(|w| w.upgrade().as_ref() == Some(r)).count() == 1;
+    if res.is_err() {
+        if aspect == 4 {
+            vk_check!(dup, "a rename to a free name is rejected");
+            vk_check!(p1.item_name().as_deref() == Some(n1.as_str()), "a rejected rename changed the name");
+            vk_check!(model.identifiable_elements().count() == 4, "a rejected rename changed the path index");
+        }
+        if aspect == 6 { vk_check!(&text_of(&refs[0]) == ra && &text_of(&refs[1]) == rb && &text_of(&refs[2]) == rc, "a rejected rename changed a reference"); }
+        if aspect == 5 { vk_check!(refs.iter().all(|r| listed_once(r)), "a rejected rename changed the referrer lists"); }
+        return;
+    }
+    let new1 = format!("/{m}");
+    if aspect == 4 {
+        vk_check!(!dup, "a rename to the name of a sibling is accepted: two elements with one path");
+        vk_check!(p1.item_name().as_deref() == Some(m.as_str()), "the element does not carry the new name");
+        // the index: P1, Q, P2 and the SYSTEM element that carries the references
+        vk_check!(model.identifiable_elements().count() == 4, "the path index has lost or gained entries");
+        for (path, e) in [(new1.clone(), &p1), (format!("{new1}/{q}"), &qe), (format!("/{n2}"), &p2)] {
+            vk_check!(model.get_element_by_path(&path).as_ref() == Some(e), "an identifiable element is not found under its current path");
+        }
+    }
+    for (r, old) in refs.iter().zip([ra, rb, rc]) {
+        if aspect == 6 {
+            let designates = old == &old1 || old.strip_prefix(old1.as_str()).is_some_and(|s| s.starts_with('/'));
+            let want = if designates { format!("{new1}{}", &old[old1.len()..]) } else { old.clone() };
+            vk_check!(text_of(r) == want, "a reference to the renamed element (or below it) was not rewritten, or another reference was changed");
+        }
+        if aspect == 5 { vk_check!(listed_once(r), "a reference is not listed (exactly once) under its current text in the referrer lists"); }
+    }
+}
+
+#[cfg(not(kani))]
+pub fn n_remove_step() {
+    let (model, strs, pkgs, p1, qe, p2, refs, aspect, which) = n_index_model();
+    let (n1, n2, q, ra, rb, rc) = (&strs[0], &strs[1], &strs[2], &strs[4], &strs[5], &strs[6]);
+    let gone = if which == 0 { p1.clone() } else { p2.clone() };
+    let res = pkgs.remove_sub_element(gone.clone());
+    vk_check!(res.is_ok(), "removing a package from AR-PACKAGES is rejected");
+    if aspect == 4 {
+        vk_check!(pkgs.sub_elements().count() == 1 && pkgs.sub_elements().all(|e| e != gone), "the removed element is still listed by its parent (or a sibling was removed)");
+        vk_check!(gone.parent().is_err() && gone.content().count() == 0, "the removed element keeps a parent or content");
+        if which == 0 {
+            vk_check!(model.identifiable_elements().count() == 2, "the path index keeps entries of removed elements or lost entries of other elements");
+            vk_check!(model.get_element_by_path(&format!("/{n2}")).as_ref() == Some(&p2), "an identifiable element that is still part of the model is not found under its path");
+        } else {
+            vk_check!(model.identifiable_elements().count() == 2, "the path index keeps entries of removed elements or lost entries of other elements");
+            vk_check!(model.get_element_by_path(&format!("/{n1}")).as_ref() == Some(&p1) && model.get_element_by_path(&format!("/{n1}/{q}")).as_ref() == Some(&qe), "an identifiable element that is still part of the model is not found under its path");
+        }
+    } else {
+        if which == 1 {
+            vk_check!(model.get_references_to(ra).is_empty() && model.get_references_to(rb).is_empty() && model.get_references_to(rc).is_empty(), "the referrer lists keep references that were removed with their package");
+        } else {
+            let total: usize = { let mut keys = std::vec![ra, rb, rc]; keys.sort(); keys.dedup(); keys.iter().map(|k| model.get_references_to(k).len()).sum() };
+            vk_check!(total == 3, "removing a package changed the referrer lists of references outside it");
+        }
+    }
+    let _ = refs;
+}
